@@ -256,12 +256,19 @@ func worldClasses(w *World, st *VStats) {
 
 type C01Case struct {
 	W *World
+	// L: the documents are laid out over files (sub-directories, .yml/.json, List wrappers, CRLF, empty documents);
+	// nil = one plain YAML file
+	L *Layout `json:",omitempty"`
 }
 
 func genC01(t *rapid.T) *C01Case {
 	w := GenWorld(t, GenCfg{OmitNs: rapid.IntRange(0, 3).Draw(t, "omitns") == 0})
 	addTwinPod(t, w)
-	return &C01Case{W: w}
+	c := &C01Case{W: w}
+	if rapid.IntRange(0, 3).Draw(t, "laidout") == 0 {
+		c.L = GenLayout(t, "lay", len(w.Docs()))
+	}
+	return c
 }
 
 // addTwinPod: in a sixth of the cases a controller-kind workload gets a bare Pod of the same namespace and NAME next to
@@ -296,8 +303,15 @@ func addTwinPod(t *rapid.T, w *World) {
 // listOrDeviation runs list and applies the one documented deviation (named port on an IP destination).
 // ok=false with nil failure means: the documented fatal error was returned, nothing to compare.
 func listOrDeviation(w *World, st *VStats) (res *ListRes, ok bool, f *VFailure) {
-	dir := w.WriteDir()
+	return listOrDeviationL(w, nil, st)
+}
+
+func listOrDeviationL(w *World, l *Layout, st *VStats) (res *ListRes, ok bool, f *VFailure) {
+	dir := w.WriteLayout(l)
 	defer os.RemoveAll(dir)
+	if l != nil {
+		st.Class("documents laid out over several files / formats")
+	}
 	res = RunList(dir, ListOpts{})
 	if res.Panic != nil {
 		return res, false, &VFailure{Msg: fmt.Sprintf("list panicked: %v", res.Panic), Sig: "panic"}
@@ -315,7 +329,7 @@ func listOrDeviation(w *World, st *VStats) (res *ListRes, ok bool, f *VFailure) 
 func checkC01(c *C01Case, st *VStats) *VFailure {
 	w := c.W
 	worldClasses(w, st)
-	res, ok, f := listOrDeviation(w, st)
+	res, ok, f := listOrDeviationL(w, c.L, st)
 	if f != nil || !ok {
 		return f
 	}
